@@ -47,7 +47,7 @@ def main():
             print(pid, k, status, json.dumps(res)[:400] if status != 'confirmed' else '')
             if status != 'confirmed':
                 continue
-            sid = '%s-m%d' % (pid, k)
+            sid = '%s-%sm%d' % (pid, os.environ.get('SEED_ROUND', ''), k)
             sdir = os.path.join(VERIF, 'seeded', sid)
             os.makedirs(sdir, exist_ok=True)
             out = '/tmp/seed/%s_out' % pid
